@@ -253,19 +253,22 @@ theorem no_overflow_of_maxTTL (maxTTL ttl : Int) (h0 : 0 < maxTTL) (hm : maxTTL 
 
 /-! ## concurrent (every interleaving, any number of callers and cleaners)
 
-`s.ref` is the reference map the callers' operations define: `Set` puts, `Delete` removes, and a
-`Reset` that deletes the very entry its visit saw removes it (`cstep`, ghost updates only).
-`s.raced` records `(k, stamp)` of entries deleted by a cleaner whose visit of `k` had seen an
-*older* entry (different stamp): the documented cleanup/refresh race. -/
+Nothing but single map operations and the clock is atomic: `Get` = `gRead` (map) then `gNow`
+(clock, compare); `Set` = `sNow` (clock) then `sStore`; `Cleanup`/`Reset` = clock read, per-key
+visits, seal, per-key deletes, return. `s.ref` is the reference map the callers' operations define:
+a store puts, `Delete` removes, and a `Reset` that deletes the very entry its visit saw removes it
+(`cstep`, ghost updates only). `s.raced` records `(k, stamp)` of entries deleted by a cleaner whose
+visit of `k` had seen an *older* entry (different stamp): the documented cleanup/refresh race.
+`getOfC s k` is the *stored view*: what map lookup + clock comparison yield in state `s`. -/
 
-/-- **hit_is_fresh.** In every reachable state, a `Get` hit returns the value of the reference
-entry of that key — the most recently `Set` value, not deleted, not reset — and that entry is
-unexpired on the cache's clock. No interleaving of cleaners can make `Get` return anything else. -/
+/-- **hit_is_fresh (stored view).** In every reachable state, what the stored map would serve for
+`k` is the value of the reference entry of that key — the most recently stored value, not deleted,
+not reset — and that entry is unexpired on the cache's clock. -/
 theorem hit_is_fresh {maxTTL t0 period : Int} {s : CState} (hr : Reach maxTTL t0 period s)
     (k : Key) (v : Val) (hget : getOfC s k = some v) :
     ∃ e st, mget s.ref k = some (e, st) ∧ e.val = v ∧ s.now < e.exp := by
-  have hI := cinv_reach hr
-  unfold getOfC at hget
+  have hI := (cinv_reach hr).1
+  unfold getOfC serve at hget
   cases hg : mget s.m k with
   | none => simp [hg] at hget
   | some x =>
@@ -277,15 +280,73 @@ theorem hit_is_fresh {maxTTL t0 period : Int} {s : CState} (hr : Reach maxTTL t0
       exact ⟨e, st, hI.sub k _ hg, hget, hlt⟩
     · cases hget
 
-/-- **miss_only_by_documented_race.** If the reference holds a live entry for `k` (stamp `st`) and
-`Get k` misses, then `(k, st)` is in `raced`: a cleaner deleted it although its visit of `k` had
-seen a different (older) entry. -/
+/-- **get_hit_is_fresh_trace** — the theorem about what a real (non-atomic) `Get` returns. For every
+run `ls` of the LTS from the initial state after which a `Get` of `k` (caller `id`) completes with a
+hit `v`: the callers' history of the run splits into what had happened when this `Get` read the map
+(`hpre`, most recent first) and what happened since (`hnew`); `v` is what the backwards scan over
+`hpre` yields — the last `Set k` not followed by `Delete k` at the moment of the map read — and even
+at the moment the `Get` returns, strictly less than `min(ttl, MaxTTL?)` seconds have elapsed since
+that `Set` was stored. So a `Get` never returns an expired, deleted or superseded value: it returns
+the value current at its linearization point (the map read), still unexpired when it returns. -/
+theorem get_hit_is_fresh_trace (maxTTL t0 period : Int) (ls : List Label) (s s' : CState)
+    (id : Nat) (k : Key) (v : Val)
+    (hrun : crun (CState.init maxTTL t0 period) ls = some s)
+    (hget : cstep s (.gNow id k (some v)) = some s')
+    (hno : ∀ id' k' v' ttl, Label.sStore id' k' v' ttl ∈ ls → NoOverflow maxTTL ttl) :
+    ∃ hnew hpre ttl el, (ls.filterMap projOp).reverse = hnew ++ hpre ∧
+      lastLive k hpre 0 = some (v, ttl, el) ∧
+      ((el : Int) + advSum hnew) < effTTL maxTTL ttl * second := by
+  have hA := refAgree_run ls _ s [] (Reach.init) (refAgree_init maxTTL t0 period) hrun
+  simp only [List.append_nil] at hA
+  simp only [cstep] at hget
+  cases hf : findGetter s.getters id with
+  | none => simp [hf] at hget
+  | some g =>
+    simp only [hf] at hget
+    split at hget
+    · rename_i hcond
+      obtain ⟨hgm, _⟩ := findGetter_some hf
+      obtain ⟨hk, hserve⟩ := hcond
+      unfold serve at hserve
+      cases hrd : g.read with
+      | none => simp [hrd] at hserve
+      | some x =>
+        obtain ⟨e, st⟩ := x
+        simp only [hrd] at hserve
+        split at hserve
+        · rename_i hlt
+          have hlt' : s.now < e.exp := hlt
+          simp only [Option.some.injEq] at hserve
+          obtain ⟨hnew, hpre, hsplit, ttl, el, hl, hexp⟩ := hA.get g hgm (e, st) hrd
+          rw [hk] at hl
+          obtain ⟨hin, hpos⟩ := lastLive_mem k e.val ttl el _ _ hl
+          have hlab : ∃ id', Label.sStore id' k e.val ttl ∈ ls := by
+            have h1 : Op.set k e.val ttl ∈ (ls.filterMap projOp).reverse := by
+              rw [hsplit]; exact List.mem_append_right _ hin
+            have h2 : Op.set k e.val ttl ∈ ls.filterMap projOp := by simpa using h1
+            obtain ⟨l, hl1, hl2⟩ := List.mem_filterMap.1 h2
+            cases l <;> simp [projOp] at hl2
+            obtain ⟨rfl, rfl, rfl⟩ := hl2
+            exact ⟨_, hl1⟩
+          obtain ⟨id', hlab⟩ := hlab
+          have hd := durNs_exact maxTTL ttl hpos (hno id' k e.val ttl hlab)
+          refine ⟨hnew, hpre, ttl, el, hsplit, ?_, ?_⟩
+          · rw [← hserve]; exact hl
+          · simp only [] at hexp
+            rw [hd] at hexp
+            omega
+        · cases hserve
+    · cases hget
+
+/-- **miss_only_by_documented_race (stored view).** If the reference holds a live entry for `k`
+(stamp `st`) and the stored map would not serve it, then `(k, st)` is in `raced`: a cleaner deleted
+it although its visit of `k` had seen a different (older) entry. -/
 theorem miss_only_by_documented_race {maxTTL t0 period : Int} {s : CState}
     (hr : Reach maxTTL t0 period s) (k : Key) (e : Entry) (st : Nat)
     (href : mget s.ref k = some (e, st)) (hlive : s.now < e.exp) (hmiss : getOfC s k = none) :
     (k, st) ∈ s.raced := by
-  have hI := cinv_reach hr
-  unfold getOfC at hmiss
+  have hI := (cinv_reach hr).1
+  unfold getOfC serve at hmiss
   cases hg : mget s.m k with
   | none =>
     rcases hI.explained k e st href hg with h1 | h1
@@ -300,9 +361,57 @@ theorem miss_only_by_documented_race {maxTTL t0 period : Int} {s : CState}
     · cases hmiss
     · contradiction
 
-/-- Contrapositive, the form the harness monitors: a live reference entry that was not hit by the
-documented race is returned by `Get` — in particular a key nobody touches while cleaners run
-(nothing can put it into `raced`, see `raced_only_by_delete_after_refresh`) never disappears. -/
+/-- **get_miss_only_by_two_races** — the theorem about a real (non-atomic) `Get` that misses. If a
+`Get k` completes with a miss in a state whose reference entry for `k` (stamp `st`) is live, then
+* either `(k, st) ∈ raced` — the documented cleanup/refresh race (a cleaner deleted the entry
+  although its visit had seen an older one),
+* or this `Get` had read the map before that entry was stored (`g.stamp0 ≤ st`): the **get/refresh
+  race** — between the `Get`'s map read and its clock read the key was refreshed and the clock
+  passed the old entry's expiry (or the key was absent/expired at the read and set meanwhile).
+No third way exists. The second race involves no cleaner; see `get_refresh_race_witness`. -/
+theorem get_miss_only_by_two_races {maxTTL t0 period : Int} {s s' : CState}
+    (hr : Reach maxTTL t0 period s) (id : Nat) (k : Key) (e : Entry) (st : Nat)
+    (hget : cstep s (.gNow id k none) = some s')
+    (href : mget s.ref k = some (e, st)) (hlive : s.now < e.exp) :
+    (k, st) ∈ s.raced ∨ ∃ g ∈ s.getters, g.id = id ∧ g.k = k ∧ g.stamp0 ≤ st := by
+  have hB := (cinv_reach hr).2
+  simp only [cstep] at hget
+  cases hf : findGetter s.getters id with
+  | none => simp [hf] at hget
+  | some g =>
+    simp only [hf] at hget
+    split at hget
+    · rename_i hcond
+      obtain ⟨hgm, hgid⟩ := findGetter_some hf
+      obtain ⟨hk, hserve⟩ := hcond
+      by_cases hold : st < g.stamp0
+      · left
+        rcases hB.getterOld g hgm e st (hk ▸ href) hold with h1 | h1 | h1
+        · rw [h1] at hserve
+          have : Src.getHitCmp.rel e.exp s.now := hlive
+          simp [serve, this] at hserve
+        · omega
+        · rw [hk] at h1; exact h1
+      · right
+        exact ⟨g, hgm, hgid, hk, by omega⟩
+    · cases hget
+
+/-- **get_refresh_race_witness.** A run without any cleaner in which `a` is live in the reference at
+every moment, yet a `Get a` misses: the `Get` reads the entry stored with ttl 1 s, `a` is refreshed
+(ttl 50 s), the clock passes the old expiry, the `Get` compares the OLD expiry with the NEW clock.
+`raced` is empty; the reference entry is live; `gNow … none` is enabled and `gNow … (some 2)` is not. -/
+theorem get_refresh_race_witness :
+    let run := crun (CState.init 0 0 1000000000000)
+      [.sNow 1 "a" 1 1, .sStore 1 "a" 1 1, .gRead 7 "a", .sNow 2 "a" 2 50, .sStore 2 "a" 2 50,
+       .advance 2000000000]
+    run.map (fun s => ((cstep s (.gNow 7 "a" none)).isSome, (cstep s (.gNow 7 "a" (some 2))).isSome))
+      = some (true, false) ∧
+    run.map (fun s => s.raced) = some [] ∧
+    run.map (fun s => (mget s.ref "a").map (fun x => (x.1.val, x.1.exp - s.now))) = some (some (2, 48000000000)) ∧
+    run.map (fun s => getOfC s "a") = some (some 2) := by decide
+
+/-- Contrapositive of the stored-view theorem, the form the harness monitors: a live reference entry
+that was not hit by the documented race is what the stored map serves. -/
 theorem live_entry_hit_unless_raced {maxTTL t0 period : Int} {s : CState}
     (hr : Reach maxTTL t0 period s) (k : Key) (e : Entry) (st : Nat)
     (href : mget s.ref k = some (e, st)) (hlive : s.now < e.exp) (hnr : (k, st) ∉ s.raced) :
@@ -317,8 +426,8 @@ theorem live_entry_hit_unless_raced {maxTTL t0 period : Int} {s : CState}
 
 /-- How an entry gets into `raced`: only by a cleaner's delete step `cDelOne id k st0` where the
 cleaner is in its delete phase, had collected `(k, st0)` at its visit, and the stored entry now
-carries a different stamp `st ≠ st0` — i.e. a `Set k` happened between that visit and this delete
-(stamps are assigned by `Set` only). No other step of any caller or cleaner adds to `raced`. -/
+carries a different stamp `st ≠ st0` — i.e. a store of `k` happened between that visit and this
+delete (stamps are assigned by stores only). No other step of any caller or cleaner adds to `raced`. -/
 theorem raced_only_by_delete_after_refresh {s s' : CState} {l : Label} (hs : cstep s l = some s')
     (p : Key × Nat) (hp : p ∈ s'.raced) :
     p ∈ s.raced ∨ ∃ id st0, l = .cDelOne id p.1 st0 ∧ st0 ≠ p.2 ∧
@@ -351,6 +460,83 @@ theorem raced_only_by_delete_after_refresh {s s' : CState} {l : Label} (hs : cst
       | (cases hs; exact Or.inl hp)
       | cases hs
 
+/-- **untouched_live_key_always_hit.** End to end, for every continuation: if in a reachable state
+the reference entry `(e, st)` of `k` is intact (not raced, no Reset in flight, every cleaner that has
+collected `k` saw this very entry), then after ANY run `ls` in which nobody stores or deletes `k`
+and no Reset begins — any number of Cleanups (manual and periodic) starting, visiting, deleting,
+any operations on other keys, any clock advances — as long as the entry is unexpired the stored map
+serves it. "Cleanup never makes a live entry of a key nobody touched disappear." -/
+theorem untouched_live_key_always_hit {maxTTL t0 period : Int} {s s' : CState}
+    (hr : Reach maxTTL t0 period s) (k : Key) (e : Entry) (st : Nat)
+    (href : mget s.ref k = some (e, st)) (hnr : (k, st) ∉ s.raced)
+    (hnoreset : ∀ c ∈ s.cls, c.isReset = false)
+    (hseen : ∀ c ∈ s.cls, ∀ p ∈ c.keys, p.1 = k → p.2 = st)
+    (ls : List Label) (hrun : crun s ls = some s')
+    (hnt : ∀ l ∈ ls, ¬ Touches k l) (hlive : s'.now < e.exp) :
+    getOfC s' k = some e.val := by
+  have hI := intact_run ls s s' hr ⟨href, hnr, hnoreset, hseen⟩ hrun hnt
+  exact live_entry_hit_unless_raced (reach_of_crun ls s s' hr hrun) k e st hI.ref hlive hI.notRaced
+
+/-- In particular from a quiescent state (no cleaner in flight). -/
+theorem untouched_live_key_always_hit_quiescent {maxTTL t0 period : Int} {s s' : CState}
+    (hr : Reach maxTTL t0 period s) (k : Key) (e : Entry) (st : Nat)
+    (href : mget s.ref k = some (e, st)) (hnr : (k, st) ∉ s.raced) (hq : s.cls = [])
+    (ls : List Label) (hrun : crun s ls = some s')
+    (hnt : ∀ l ∈ ls, ¬ Touches k l) (hlive : s'.now < e.exp) :
+    getOfC s' k = some e.val :=
+  untouched_live_key_always_hit hr k e st href hnr (by simp [hq]) (by simp [hq]) ls hrun hnt hlive
+
+/-- **reset_removes_older_entries** — what IS true for a concurrent (non-atomic) `Reset`: when it
+returns (`cEnd`), every entry still stored was stored after this Reset's ForEach began
+(stamp ≥ its `stamp0`). Equivalently: every key present when the Reset started and not re-stored
+meanwhile is gone when it returns. (Entries stored during the Reset may survive: the code is not
+atomic; an atomic-Reset theorem is deliberately not claimed.) -/
+theorem reset_removes_older_entries {maxTTL t0 period : Int} {s s' : CState}
+    (hr : Reach maxTTL t0 period s) (id : Nat) (c : Cleaner)
+    (hf : findCl s.cls id = some c) (hreset : c.isReset = true)
+    (hend : cstep s (.cEnd id) = some s') :
+    ∀ k x, mget s'.m k = some x → c.stamp0 ≤ x.2 := by
+  have hB' := (cinv_reach (Reach.step _ hr hend)).2
+  intro k x hx
+  have hfl := hB'.floor k x hx
+  simp only [cstep, hf] at hend
+  split at hend
+  · cases hend
+    simp only [hreset, if_true] at hfl
+    omega
+  · cases hend
+
+/-- **hit_not_reset_since.** In every reachable state, whatever the stored map serves was stored
+after the ForEach of every `Reset` that has returned began (`resetFloor` = the largest such start).
+So no `Get` that reads the map after a `Reset` returned can hit a value that was present when that
+`Reset` started, unless it was stored again. -/
+theorem hit_not_reset_since {maxTTL t0 period : Int} {s : CState} (hr : Reach maxTTL t0 period s)
+    (k : Key) (v : Val) (hget : getOfC s k = some v) :
+    ∃ e st, mget s.m k = some (e, st) ∧ e.val = v ∧ s.resetFloor ≤ st := by
+  have hB := (cinv_reach hr).2
+  unfold getOfC serve at hget
+  cases hg : mget s.m k with
+  | none => simp [hg] at hget
+  | some x =>
+    obtain ⟨e, st⟩ := x
+    simp only [hg] at hget
+    split at hget
+    · simp only [Option.some.injEq] at hget
+      exact ⟨e, st, rfl, hget, hB.floor k _ hg⟩
+    · cases hget
+
+/-- Non-vacuity of the Reset theorems, and the audit's run repaired: a Reset can no longer "visit
+nothing" (`cSeal` is disabled while a key stored at its start is unvisited); after a full Reset the
+key misses; a key stored during the Reset survives (non-atomicity, as in the code). -/
+example :
+    (crun (CState.init 0 0 1000000000000)
+      [.sNow 1 "a" 1 50, .sStore 1 "a" 1 50, .cBegin 1 true, .cNow 1]).map
+      (fun s => (cstep s (.cSeal 1)).isSome) = some false ∧
+    (crun (CState.init 0 0 1000000000000)
+      [.sNow 1 "a" 1 50, .sStore 1 "a" 1 50, .cBegin 1 true, .cNow 1, .cVisit 1 "a", .cSeal 1,
+       .sNow 2 "b" 2 50, .sStore 2 "b" 2 50, .cDelOne 1 "a" 0, .cEnd 1]).map
+      (fun s => (getOfC s "a", getOfC s "b", s.resetFloor)) = some (none, some 2, 1) := by decide
+
 /-- **stop_waits_cleaner.** EVERY `Stop` call — the one that wins the `stopped` CAS and every other,
 concurrent or later one (`caller` is arbitrary; any number of them may be in flight) — can return
 only when the periodic goroutine has exited: it is not inside a Cleanup (no cleaner with id 0 in
@@ -358,7 +544,7 @@ flight) and its deferred `ticker.Stop()` has run. -/
 theorem stop_waits_cleaner {maxTTL t0 period : Int} {s s' : CState} (hr : Reach maxTTL t0 period s)
     (caller : Nat) (hs : cstep s (.stopReturn caller) = some s') :
     s.bg = .exited ∧ s.tickerStopped = true ∧ ∀ c ∈ s.cls, c.id ≠ 0 := by
-  have hI := cinv_reach hr
+  have hI := (cinv_reach hr).1
   simp only [cstep] at hs
   split at hs
   · rename_i hcond
@@ -372,7 +558,7 @@ theorem stop_waits_cleaner {maxTTL t0 period : Int} {s s' : CState} (hr : Reach 
 theorem exited_is_final {maxTTL t0 period : Int} {s s' : CState} {l : Label}
     (hr : Reach maxTTL t0 period s) (hs : cstep s l = some s') (hb : s.bg = .exited) :
     s'.bg = .exited := by
-  have hI := cinv_reach hr
+  have hI := (cinv_reach hr).1
   cases l
   case cEnd id =>
     simp only [cstep] at hs
@@ -422,7 +608,7 @@ theorem no_periodic_delete_after_stop_returned {maxTTL t0 period : Int} {s s1 : 
         simp only [hst] at h
         exact ih a' b (Reach.step _ ha hst) (exited_is_final ha hst hb) h
   obtain ⟨hr2, hb2⟩ := key ls s1 s2 hr1 hb1 hrun
-  have hI := cinv_reach hr2
+  have hI := (cinv_reach hr2).1
   refine ⟨hb2, ?_, ?_⟩
   · intro k st
     simp only [cstep]
@@ -436,15 +622,16 @@ theorem no_periodic_delete_after_stop_returned {maxTTL t0 period : Int} {s s1 : 
     rw [if_neg]
     intro h; rw [hb2] at h; exact absurd h.1 (by decide)
 
-/-- Non-vacuity (and the documented race as a run of the LTS): `Set a` (ttl 1 s), 2 s pass, a
-cleaner snapshots `a` as expired, `a` is refreshed (ttl 50 s), a `Get` hits the new value, the
-cleaner deletes: now the reference entry is live, `Get` misses, and `raced` names exactly it. The
-untouched key `b` is still served. -/
+/-- Non-vacuity (and the documented cleanup/refresh race as a run of the LTS): `Set a` (ttl 1 s),
+2 s pass, a cleaner snapshots `a` as expired, `a` is refreshed (ttl 50 s), a `Get` hits the new
+value, the cleaner deletes: now the reference entry is live, a `Get` misses, and `raced` names
+exactly it. The untouched key `b` is still served. -/
 example :
     (crun (CState.init 0 0 1000000000000)
-      [.set "a" 1 1, .set "b" 2 50, .advance 2000000000, .cBegin 1 false, .cNow 1, .cVisit 1 "a",
-       .cVisit 1 "b", .cSeal 1, .set "a" 3 50, .get "a" (some 3), .cDelOne 1 "a" 0, .cEnd 1,
-       .get "a" none, .get "b" (some 2)]).map
+      [.sNow 1 "a" 1 1, .sStore 1 "a" 1 1, .sNow 1 "b" 2 50, .sStore 1 "b" 2 50, .advance 2000000000,
+       .cBegin 1 false, .cNow 1, .cVisit 1 "a", .cVisit 1 "b", .cSeal 1,
+       .sNow 1 "a" 3 50, .sStore 1 "a" 3 50, .gRead 1 "a", .gNow 1 "a" (some 3),
+       .cDelOne 1 "a" 0, .cEnd 1, .gRead 1 "a", .gNow 1 "a" none, .gRead 1 "b", .gNow 1 "b" (some 2)]).map
       (fun s => (getOfC s "a", s.raced, (mget s.ref "a").map (fun x => (x.1.val, x.2)), getOfC s "b"))
     = some (none, [("a", 2)], some (3, 2), some 2) := by decide
 
@@ -458,14 +645,14 @@ example :
       [.advance 1000000000, .bgTake, .cNow 0, .cSeal 0, .stopCall 1, .stopCall 2, .cEnd 0, .bgExit,
        .stopReturn 2, .stopReturn 1, .stopCall 3, .stopReturn 3]).isSome = true := by decide
 
-/-- Trace-level reading of `hit_is_fresh`: for every run `ls` of the LTS from the initial state (any
-interleaving of callers' operations and cleaners' internal steps), a hit equals what the backwards
-scan `lastLive` over the callers' Set/Delete/Advance labels of that very run yields, and strictly
-less than `min(ttl, MaxTTL?)` seconds have elapsed since that Set. -/
+/-- Trace-level reading of the stored view: for every run `ls` of the LTS from the initial state,
+what the stored map serves at the end equals what the backwards scan `lastLive` over the callers'
+store/Delete/Advance labels of that very run yields, and strictly less than `min(ttl, MaxTTL?)`
+seconds have elapsed since that store. -/
 def hit_is_fresh_trace_statement : Prop :=
   ∀ (maxTTL t0 period : Int) (ls : List Label) (s : CState) (k : Key) (v : Val),
     crun (CState.init maxTTL t0 period) ls = some s → getOfC s k = some v →
-    (∀ k' v' ttl, Label.set k' v' ttl ∈ ls → NoOverflow maxTTL ttl) →
+    (∀ id' k' v' ttl, Label.sStore id' k' v' ttl ∈ ls → NoOverflow maxTTL ttl) →
     ∃ ttl el, lastLive k ((ls.filterMap projOp).reverse) 0 = some (v, ttl, el) ∧
       (el : Int) < effTTL maxTTL ttl * second
 
@@ -474,17 +661,18 @@ theorem hit_is_fresh_trace : hit_is_fresh_trace_statement := by
   intro maxTTL t0 period ls s k v hrun hget hno
   have hr : Reach maxTTL t0 period s := reach_of_crun ls _ s Reach.init hrun
   obtain ⟨e, st, href, hval, hlt⟩ := hit_is_fresh hr k v hget
-  have hA := refAgree_run ls _ s [] (refAgree_init maxTTL t0 period) hrun
+  have hA := refAgree_run ls _ s [] Reach.init (refAgree_init maxTTL t0 period) hrun
   simp only [List.append_nil] at hA
-  obtain ⟨ttl, el, hl, hexp⟩ := hA.2 k (e, st) href
+  obtain ⟨ttl, el, hl, hexp⟩ := hA.ref k (e, st) href
   obtain ⟨hin, hpos⟩ := lastLive_mem k e.val ttl el _ _ hl
-  have hlab : Label.set k e.val ttl ∈ ls := by
+  have hlab : ∃ id', Label.sStore id' k e.val ttl ∈ ls := by
     have h1 : Op.set k e.val ttl ∈ ls.filterMap projOp := by simpa using hin
     obtain ⟨l, hl1, hl2⟩ := List.mem_filterMap.1 h1
     cases l <;> simp [projOp] at hl2
     obtain ⟨rfl, rfl, rfl⟩ := hl2
-    exact hl1
-  have hd := durNs_exact maxTTL ttl hpos (hno k e.val ttl hlab)
+    exact ⟨_, hl1⟩
+  obtain ⟨id', hlab⟩ := hlab
+  have hd := durNs_exact maxTTL ttl hpos (hno id' k e.val ttl hlab)
   refine ⟨ttl, el, ?_, ?_⟩
   · rw [← hval]; exact hl
   · simp only [] at hexp
@@ -498,14 +686,14 @@ the harness observed on the real cache. The answers are produced by running labe
 these theorems say so, hence every theorem about runs applies to every accepted real trace. -/
 
 /-- **accepted_trace_is_run.** The labels executed for a script form a run of the LTS from the
-initial state to the acceptor's final state (which is therefore reachable); the callers' history of
-that run is exactly the script's Set/Delete/Advance requests; the answer at each position is the
-acceptor's answer in the state reached by the preceding requests. -/
+initial state to the acceptor's final state (which is therefore reachable); if no answer is
+`error` (real traces never contain one), the callers' history of that run is exactly the script's
+store/Delete/Advance requests. -/
 theorem accepted_trace_is_run (maxTTL t0 period : Int) (rs : List Req) :
     let d := drive (CState.init maxTTL t0 period) rs
     crun (CState.init maxTTL t0 period) d.2.2 = some d.1 ∧
     Reach maxTTL t0 period d.1 ∧
-    d.2.2.filterMap projOp = rs.filterMap reqOp := by
+    (Resp.error ∉ d.2.1 → d.2.2.filterMap projOp = rs.filterMap reqOp) := by
   refine ⟨drive_sound _ rs, ?_, drive_projOp _ rs⟩
   exact reach_of_crun _ _ _ Reach.init (drive_sound _ rs)
 
@@ -515,32 +703,56 @@ theorem accepted_answer_at (s : CState) (r1 : List Req) (r : Req) (r2 : List Req
     (drive s (r1 ++ r :: r2)).2.1[r1.length]? = some (respond (drive s r1).1 r).resp :=
   drive_resp_at s r1 r r2
 
-/-- **accepted_hit_is_fresh.** In an accepted scheduled trace, a `Get k` answered `hit v` after the
-requests `rs` (cleaners parked and released anywhere in between) returns what the backwards scan
-over the script's own Set/Delete/Advance requests yields, younger than `min(ttl, MaxTTL?)`. -/
+/-- **accepted_hit_is_fresh.** In an accepted scheduled trace, an (unsplit) `Get k` answered `hit v`
+after the requests `rs` (cleaners, split Sets and Gets parked and released anywhere in between)
+returns what the backwards scan over the script's own store/Delete/Advance requests yields, younger
+than `min(ttl, MaxTTL?)`. -/
 theorem accepted_hit_is_fresh (maxTTL t0 period : Int) (rs : List Req) (k : Key) (v : Val)
+    (hok : Resp.error ∉ (drive (CState.init maxTTL t0 period) rs).2.1)
     (hhit : (respond (drive (CState.init maxTTL t0 period) rs).1 (.get k)).resp = .hit v)
-    (hno : ∀ k' v' ttl, Req.set k' v' ttl ∈ rs → NoOverflow maxTTL ttl) :
+    (hno : ∀ r ∈ rs, ∀ o, reqOp r = some o → ∀ k' v' ttl, o = Op.set k' v' ttl → NoOverflow maxTTL ttl) :
     ∃ ttl el, lastLive k ((rs.filterMap reqOp).reverse) 0 = some (v, ttl, el) ∧
       (el : Int) < effTTL maxTTL ttl * second := by
   have hget := respond_get_hit _ k v hhit
   have hrun := drive_sound (CState.init maxTTL t0 period) rs
-  have hproj := drive_projOp (CState.init maxTTL t0 period) rs
+  have hproj := drive_projOp (CState.init maxTTL t0 period) rs hok
   have := hit_is_fresh_trace maxTTL t0 period _ _ k v hrun hget (by
-    intro k' v' ttl hl
+    intro id' k' v' ttl hl
     have h1 : Op.set k' v' ttl ∈ (drive (CState.init maxTTL t0 period) rs).2.2.filterMap projOp :=
       List.mem_filterMap.2 ⟨_, hl, rfl⟩
     rw [hproj] at h1
     obtain ⟨r, hr1, hr2⟩ := List.mem_filterMap.1 h1
-    cases r <;> simp only [reqOp] at hr2 <;> try (cases hr2)
-    case set k2 v2 t2 =>
-      split at hr2
-      · cases hr2
-      · simp only [Option.some.injEq, Op.set.injEq] at hr2
-        obtain ⟨rfl, rfl, rfl⟩ := hr2
-        exact hno _ _ _ hr1)
+    exact hno r hr1 _ hr2 k' v' ttl rfl)
   rw [hproj] at this
   exact this
+
+/-- **accepted_split_get_hit_is_fresh.** The same for a `Get` that was parked between its map read
+and its clock read (`gbegin … gend`): a `hit v` answer to `gend` means `v` was the last live `Set`
+when the `Get` read the map, and fewer than `min(ttl, MaxTTL?)` seconds elapsed until it returned. -/
+theorem accepted_split_get_hit_is_fresh (maxTTL t0 period : Int) (rs : List Req) (id : Nat) (k : Key) (v : Val)
+    (hok : Resp.error ∉ (drive (CState.init maxTTL t0 period) rs).2.1)
+    (hhit : (respond (drive (CState.init maxTTL t0 period) rs).1 (.gend id k)).resp = .hit v)
+    (hno : ∀ r ∈ rs, ∀ o, reqOp r = some o → ∀ k' v' ttl, o = Op.set k' v' ttl → NoOverflow maxTTL ttl) :
+    ∃ hnew hpre ttl el, (rs.filterMap reqOp).reverse = hnew ++ hpre ∧
+      lastLive k hpre 0 = some (v, ttl, el) ∧ ((el : Int) + advSum hnew) < effTTL maxTTL ttl * second := by
+  have hrun := drive_sound (CState.init maxTTL t0 period) rs
+  have hproj := drive_projOp (CState.init maxTTL t0 period) rs hok
+  obtain ⟨r, hresp, hstep⟩ := respond_gend _ id k (by rw [hhit]; simp)
+  rw [hhit] at hresp
+  cases r with
+  | none => simp [respOfGet] at hresp
+  | some v' =>
+    simp only [respOfGet, Resp.hit.injEq] at hresp
+    subst hresp
+    have := get_hit_is_fresh_trace maxTTL t0 period _ _ _ id k v hrun hstep (by
+      intro id' k' v' ttl hl
+      have h1 : Op.set k' v' ttl ∈ (drive (CState.init maxTTL t0 period) rs).2.2.filterMap projOp :=
+        List.mem_filterMap.2 ⟨_, hl, rfl⟩
+      rw [hproj] at h1
+      obtain ⟨r, hr1, hr2⟩ := List.mem_filterMap.1 h1
+      exact hno r hr1 _ hr2 k' v' ttl rfl)
+    rw [hproj] at this
+    exact this
 
 /-- **accepted_stop_return_means_exited.** Whenever the acceptor answers a concurrent `Stop` caller
 with `returned` (from any reachable state), the periodic goroutine has exited in the resulting
@@ -563,12 +775,15 @@ theorem accepted_stop_return_means_exited {maxTTL t0 period : Int} {s : CState}
       exact exited_is_final hr2 hst (stop_waits_cleaner hr2 id hst).1
     · rw [h2] at h; cases h
 
-/-- Non-vacuity: a script with a parked periodic cleaner, a refresh, two blocked Stop callers. -/
+/-- Non-vacuity: a script with a parked periodic cleaner, a refresh, two blocked Stop callers, and
+the get/refresh race through a parked `Get`. -/
 example :
     (drive (CState.init 0 0 1000000000)
       [.set "a" 1 1, .adv 2000000000, .bgsnap, .stopcall 1, .stopcall 2, .set "a" 2 9, .get "a",
-       .bgfinish, .stopwait 2, .stopwait 1, .get "a"]).2.1
-    = [.ok, .ticked .sent, .snap ["a"], .blocked, .blocked, .ok, .hit 2, .ok, .ok, .ok, .miss] := by
+       .bgfinish, .stopwait 2, .stopwait 1, .get "a",
+       .set "b" 1 1, .gbegin 5 "b", .set "b" 2 50, .adv 1000000000, .gend 5 "b", .get "b"]).2.1
+    = [.ok, .ticked .sent, .snap ["a"], .blocked, .blocked, .ok, .hit 2, .ok, .ok, .ok, .miss,
+       .ok, .ok, .ok, .ticked .none, .miss, .hit 2] := by
   decide
 
 /-! ## T1: the source's shape, regenerated from ttlcache.go on every run (`KitModel/Generated/C15.lean`)
